@@ -309,7 +309,7 @@ def liveness_rules(R):
     sr = R.body("C08.range.set", RFP + "set_replication_distance_range")
     if sr is not None:
         prep(sr)
-        calls = [c["ncallee"] for c in sr.calls if not c.get("mac")]
+        calls = [c["ncallee"] for c in sr.calls if not c.get("mac") and not any(t in (c["ncallee"] or "") for t in ("convert::From", "convert::Into", "clone::Clone", "option::Option::Some"))]
         ws = [st for blk in sr.blocks for st in blk["stmts"] if len(st["d"]) > 1 and st["d"][-1] == ".distance_range"]
         param = Taint(sr).closure(PL(sr, 1))
         somes = {st["d"][0]: st["rv"] for blk in sr.blocks for st in blk["stmts"] if st["rv"]["k"] == "agg" and st["rv"].get("variant") == "Some" and len(st["d"]) == 1}
@@ -317,7 +317,10 @@ def liveness_rules(R):
             rv = st["rv"]
             if rv["k"] == "use" and rv["a"][0] in ("cp", "mv") and len(rv["a"][1]) == 1 and rv["a"][1][0] in somes:
                 rv = somes[rv["a"][1][0]]
-            return rv["k"] == "agg" and rv.get("variant") == "Some" and op_local(rv["ops"][0]) in param
+            if rv["k"] == "agg" and rv.get("variant") == "Some" and op_local(rv["ops"][0]) in param:
+                return True
+            # `= range.into()` / `Some(range).clone()`: the stored value derives from the parameter through conversions only
+            return rv["k"] == "use" and op_local(rv["a"]) in Taint(sr, extra_transparent=["core::option::Option::Some"]).closure(param)
         okc = bool(ws) and not calls and all(_is_some_of_param(st) for st in ws)
         if not okc:
             R.viol("C08.range.set", "range-not-stored", "set_replication_distance_range does not store exactly the range it is given (%s)" % (calls[:2] or "assignment changed"), sr, sr.lines[0])
